@@ -844,7 +844,7 @@ func c20Configs() []*c20Cfg {
 			1: {{v4, 8, true, false, true, "id", false}, {v211, 7, false, true, true, "id", false}, {v3, 6, false, false, true, "id", false}, {wide, 7, true, false, true, "id", false}},
 			2: {{v4, 7, true, false, true, "idrev", false}, {v211, 7, false, true, true, "idrev", false}, {v3, 6, false, false, true, "idrev", false}, {wide, 6, true, false, true, "idrev", false}},
 			3: {{v211, 6, false, false, false, "idrev", false}, {v211, 5, false, true, true, "other", false}, {v4, 6, true, false, false, "id", false}, {wide, 6, true, false, false, "id", false}},
-			4: {{v211, 5, true, false, false, "idrev", false}, {v31, 6, false, false, false, "idrev", false}},
+			4: {{v211, 5, true, false, false, "id", false}, {v31, 6, false, false, false, "idrev", false}},
 			5: {{v31, 5, false, false, false, "id", true}, {v31, 4, false, false, false, "idrev", false}},
 		}
 	} else {
